@@ -205,7 +205,9 @@ def run_check(pid, tier, seed, t0, update_baseline=False):
         if not r["obligations"]:
             crashes.append((r["qual"], "vacuity guard: no obligation generated"))
             continue
-        if r.get("unreached"):
+        if r.get("unreached") and all(o["status"] == "unsat" for o in r["obligations"]):
+            # (when an obligation fails, the code after it is explored under the assumption that it held,
+            # which may well be contradictory: the failing obligation is what gets reported then)
             crashes.append((r["qual"], "vacuity guard: statements unreachable under the contract's precondition: %s"
                             % "; ".join(r["unreached"][:5])))
             continue
